@@ -31,6 +31,8 @@ def observe(policy, req, gcfg, acfg):
         acts.append({"a": "downstream"})
 
     def builder(scope):
+        if acfg.get("builder_raises") == "TypeError":
+            return None          # a builder that forgot its return: unpacking fails — the request is not let through
         if acfg.get("builder_raises"):
             raise RuntimeError("builder down")
         return real.make_request(req)
@@ -162,6 +164,8 @@ def acfgs():
         if br:
             a["builder_raises"] = "RuntimeError"
         yield a
+        if br:
+            yield {**a, "builder_raises": "TypeError"}
         if st == "http" and builder and not br:
             for extra in SCOPE_EXTRAS[1:]:
                 yield {**a, "scope_extra": extra}
@@ -177,7 +181,7 @@ def mark(pol):
     p = copy.deepcopy(pol)
     for i, c in enumerate(p.get("policies") or []):
         if isinstance(c, dict):
-            c.setdefault("id", f"{MARK_POL}{i}")
+            c.setdefault("id", f"{MARK_POL}{'ж日' if i % 2 == 0 else ''}{i}")
             mark_rules(c)
     mark_rules(p)
     return p
@@ -186,7 +190,8 @@ def mark(pol):
 def mark_rules(p):
     for i, r in enumerate(p.get("rules") or []):
         if isinstance(r, dict) and r.get("id"):
-            r["id"] = f"{MARK_RULE}{r['id']}"
+            # every other id carries characters outside latin-1 (header values are bytes: the id must survive or be left out, not abort the denial)
+            r["id"] = f"{MARK_RULE}{'ж日' if i % 2 == 0 else ''}{r['id']}"
 
 
 def run_cases(run: lib.Run, audit: dict, scale: int = 1):
